@@ -34,6 +34,8 @@ def run(ctx):
     ctx.rule('R18g', 'delimiter comparisons between an argument group and its inner group compare like with '
                      'like (opening with opening)', 1)
     ctx.rule('R18h', 'a key-value value loses its braces only when it consists of exactly one brace group', 1)
+    ctx.rule('R18i', 'a regular-expression separator is searched with search(text, pos) on the whole text (left '
+                     'context preserved), as the first reachable way', 1)
     ctx.rule('R18f', 'parse_keyval_content splits at the comma separator, then each part at the '
                      'equals separator with max_split=1; policies first/last/concatenate/error all '
                      'have a branch', 4)
@@ -304,6 +306,42 @@ def run(ctx):
                            '%d of the %d paths that consume a separator: more than max_split splits '
                            'are performed' % (cname, len(missing), len(paths)),
                            construct='max_split bound: ' + short(bound))
+    # the bound dominates every way of finding a separator; a regex separator is searched in the
+    # whole text from pos (left context kept)
+    if gns is not None:
+        from .. import symex
+        bound_txt = None
+        for n in ast.walk(gns):
+            if isinstance(n, ast.Compare) and len(n.ops) == 1 and unparse(n.comparators[0]) == 'max_split' \
+                    and isinstance(n.ops[0], (ast.GtE, ast.Gt)):
+                bound_txt = unparse(n)
+        try:
+            rcs = symex.return_cases(gns)
+        except symex.TooManyPaths:
+            rcs = []
+        for cs in rcs:
+            v = symex.expand(cs.sub, cs.env)
+            nosplit = isinstance(v, ast.Tuple) and v.elts and unparse(v.elts[0]) == '-1'
+            if nosplit:
+                continue
+            facts = symex.facts_of(cs.conds, cs.env)
+            passed = bound_txt is not None and any(
+                (t_ == bound_txt and not p_) or (t_.endswith(bound_txt) and t_.startswith('max_split is not None and') and not p_)
+                for t_, p_ in facts)
+            cons = 'get_next_split: %s' % short(cs.node, 60)
+            ctx.decide('R18e', passed, m, cs.node, 'separator search only after the max_split bound was checked',
+                       'this way of finding the next separator (%s) is reached without the max_split bound '
+                       'having been checked: for regular-expression / callable separators max_split is '
+                       'ignored (parse_keyval_content with a regex `=` separator splits a value that '
+                       'contains `=`)' % short(v, 60), construct=cons)
+            srch = [c_ for c_ in ast.walk(v) if isinstance(c_, ast.Call) and call_name(c_) == 'search']
+            for c_ in srch:
+                whole = len(c_.args) == 2 and isinstance(c_.args[0], ast.Name)
+                ctx.decide('R18i', whole, m, cs.node, 'regex searched in the whole text from pos',
+                           'the separator pattern is searched in %s: a slice loses the text to the left, so '
+                           'look-behind, \\b and ^ see a different context and the text is split at places '
+                           'the pattern does not match in the original' % short(c_, 50),
+                           construct='get_next_split: regex search')
     # split_at_node bound
     for n in ast.walk(san):
         if isinstance(n, ast.Compare) and unparse(n.comparators[0]) == 'max_split' and \
